@@ -218,7 +218,7 @@ def rule_r4(ctx):
                   how="for/comprehension iterables classified (set literal, set(), set comprehension, set-bound local)")
 
 
-def rule_r6(ctx):
+def rule_r6(ctx, rule="R6", extra=""):
     n = 0
     for f in ser_funcs(ctx):
         emits = []
@@ -250,10 +250,10 @@ def rule_r6(ctx):
                 fix = [a for a in own_nodes(f.node) if isinstance(a, ast.Assign) and norm(a.targets[0]) == f"{c.args[0].id}.name"
                        and isinstance(a.value, ast.Attribute) and a.value.attr == "name" and norm(a.value.value) == owner]
                 ok = any(cfg.dominates(en, cfg.node_of(a)[0]) and getattr(a, "_parent", None) is getattr(getattr(c, "_parent", None), "_parent", None) for a in fix)
-            ctx.check("R6", f"{f.local}: initializer emission is dominated by the name alignment", ok, f, c,
+            ctx.check(rule, f"{f.local}: initializer emission is dominated by the name alignment", ok, f, c,
                       "an initializer tensor can be written to the proto under the tensor's own name instead of its value's name "
                       "(alignment missing or conditional): a tensor shared by two initializers, or named differently when it was "
-                      "attached, yields duplicate / wrong initializer names and the consumers no longer resolve after a round trip",
+                      "attached, yields duplicate / wrong initializer names and the consumers no longer resolve after a round trip" + extra,
                       how="`<v>.const_value.name = <v>.name` dominates serialize_tensor_into(<proto>.initializer.add(), <v>.const_value)")
     ctx.require(n >= 1, "no initializer emission found in the serializer")
 
